@@ -7,4 +7,4 @@ TRUSTED = simcheck.TRUSTED_SIM
 
 def run(ctx):
     simcheck.run_sim_property(ctx, [], simmon.mon_c12,
-                              "a task completed after its deadline in a run of a planner that enforces deadlines with exact runtimes")
+                              "a task completed after its deadline in a run of a planner that enforces deadlines with exact runtimes", machine=False)
